@@ -1,7 +1,7 @@
 (* C14 -- Multistage RAM/disk split changes only labels and minimises disk traffic
    Property theorems only: each proof is one application of a lemma proved in Proofs/, followed by Print Assumptions. *)
 From Coq Require Import ZArith List Bool.
-From CS Require TopK AllocProofs SplitProofs AllocMin AllocGlue GenLang3 GenMulti.
+From CS Require AllocGenSpec TopK AllocProofs SplitProofs AllocMin AllocGlue GenLang3 GenMulti.
 From CS Require Import Actions NAdvance Multistage Exec Sched RunFacts Projections BasicInv MultistageRun AllocTotal TLBridge MixBridge.
 Import ListNotations.
 Open Scope Z_scope.
@@ -87,6 +87,30 @@ Theorem C14_position_storage :
 Proof. exact (@AllocMin.ms_position_storage). Qed.
 Print Assumptions C14_position_storage.
 End M_C14_position_storage.
+
+(* THE ALLOCATION IS THE SOURCE: AllocGenSpec.alloc_pre_shape / alloc_tail_shape are the Gallina functions harness/translate.py renders from the preamble of allocate_snapshots (the three clamps to max_n - 1) and from its last statements (allocation = [DISK for _ in range(snapshots)]; for i, _ in sorted(enumerate(weights), key=itemgetter(1), reverse=True)[:snapshots_in_ram]: allocation[i] = RAM -- a stable descending sort, a prefix slice, list assignment); Gen/AllocGen.v re-translates the current source on every run and proves the result equal to these terms by conversion.  Multistage.allocate, on which C14_alloc_min_disk / C14_min_disk_accesses are stated, is exactly that preamble, the dry run of the model, and that allocation, for all arguments (the dry run itself -- functools.singledispatch handlers over nonlocal state -- is compared textually: AllocPins) *)
+Module M_C14_allocate_is_source.
+Import AllocGenSpec.
+Theorem C14_allocate_is_source :
+  forall (n ram disk : Z) (t : NAdvance.traj),
+         Multistage.allocate n ram disk t =
+         (let
+          '(ram', _, sn) := alloc_pre_shape n ram disk in
+           match
+             Multistage.weigh
+               (Multistage.run (Multistage.fuel_for n)
+                  {|
+                    Multistage.max_n := n;
+                    Multistage.labels := repeat Actions.DISK (Z.to_nat sn);
+                    Multistage.tr := t
+                  |} Multistage.init) (-1) (repeat 0 (Z.to_nat sn))
+           with
+           | Actions.Ok (w, _) => Actions.Ok (w, alloc_tail_shape w sn ram')
+           | Actions.Err e => Actions.Err e
+           end).
+Proof. exact (@AllocGenSpec.allocate_is_shape). Qed.
+Print Assumptions C14_allocate_is_source.
+End M_C14_allocate_is_source.
 
 (* last clause, the allocation step: for any non-negative per-position weights w, the labelling allocate_snapshots computes (alloc_labels w r) puts the least total weight on DISK among all RAM/DISK labellings with at most r RAM positions *)
 Module M_C14_alloc_min_disk.
